@@ -202,6 +202,36 @@ def fault_case(args) -> dict:
                 for i, old in enumerate(versions.get(rel, [])):
                     trial("rollback", rel, old,
                           f"rollback to older version #{i}")
+        # two files of the same kind exchange their contents (the split
+        # still holds the same collection of bytes, under other names)
+        if part == 0:
+            same = [f for f in files if f != "dataset_info.json"]
+            for i, a in enumerate(same):
+                for b in same[i + 1:]:
+                    if Path(a).suffix != Path(b).suffix or (
+                            a.endswith(".json") != b.endswith(".json")
+                    ) or pristine[a] == pristine[b]:
+                        continue
+                    out["faults"] += 1
+                    out["kinds"]["swap"] = out["kinds"].get("swap", 0) + 1
+                    (root / a).write_bytes(pristine[b])
+                    (root / b).write_bytes(pristine[a])
+                    try:
+                        f_det, o_det, how = detects(root, before, root_sums)
+                    finally:
+                        (root / a).write_bytes(pristine[a])
+                        (root / b).write_bytes(pristine[b])
+                    for det, which in ((f_det, "opened after the fault"),
+                                       (o_det, "opened before the fault")):
+                        if not det:
+                            out["bad"].append(
+                                ({"symptom": "undetected", "fault": "swap",
+                                  "file": "list" if a.endswith(".json")
+                                  else "shard", "handle": which.split()[1]},
+                                 f"{name} hashes={list(hashes)}: exchanging "
+                                 f"the contents of {a} and {b} is not "
+                                 f"detected by check() on a handle {which}",
+                                 {"rel": a, "kind": "swap", "other": b}))
         # roll back subsets of metadata files together
         if part == 0 and len(snaps) >= 2:
             prev = snaps[-2]
@@ -345,7 +375,8 @@ def run(ctx):
         "of CR, removal of the byte; whole-file re-encodings: LF->CRLF, "
         "LF->CR, BOM, trailing newline, re-serialised JSON in 6 styles; "
         "extension by 0x00/0x0a/0xff; "
-        "deletion; replacement by every sibling of the same kind; rollback "
+        "deletion; replacement by every sibling of the same kind; exchange "
+        "of the contents of every pair of files of the same kind; rollback "
         "to every older version of the same path; subsets of metadata "
         "files rolled back together), evaluated on a handle opened before "
         "and one opened after the fault; faults that do not change the "
